@@ -39,7 +39,7 @@ func init() {
 		Assumptions: []string{"non-empty key lists; CountPrefixes only on strictly ascending keys, e-s >= 2, m >= 1"},
 		Flavours:    releaseAnd386,
 		Required: []string{"fd/equal", "fd/byte-prefix", "fd/nul-padding-twin", "fd/diff-in-chunk-0", "fd/diff-in-chunk-1", "fd/diff-in-chunk-2", "fd/diff-at-chunk-boundary", "fd/empty-key", "fd/single-key-list",
-			"cp/s>0", "cp/m=1", "cp/m>=64", "cp/key-shorter-than-prefix", "cp/all-subranges", "fd/first-diff-bit>=2048", "fd/first-diff-bit>=32768", "fd/keys>2^18"},
+			"cp/s>0", "cp/m=1", "cp/m>=64", "cp/key-shorter-than-prefix", "cp/all-subranges", "cp/keys>=66", "cp/range-ends-at-multiple-of-64-keys", "fd/first-diff-bit>=2048", "fd/first-diff-bit>=32768", "fd/keys>2^18"},
 		Families: func(c *mon.Config) []mon.Family {
 			return []mon.Family{
 				{Name: "cold-start", N: 1, Serial: true, Run: func(w *mon.W, _ int) {
@@ -58,6 +58,7 @@ func init() {
 				{Name: "fd-chunk-boundaries", N: 9 * c.Pick(200, 20000), Run: c16Chunks},
 				{Name: "fd-keyzoo", Env: 6, N: c.Pick(10000, 1500000), Run: c16Zoo},
 				{Name: "countprefixes", Env: 4, N: c.Pick(6000, 800000), Run: c16Count},
+				{Name: "countprefixes-medium", Env: 2, N: c.Pick(150, 15000), Run: c16CountMedium},
 				{Name: "long-keys", Env: 2, N: len(c16LongLens) * c.Pick(2, 200), Run: c16LongKeys},
 				{Name: "many-keys", Env: 1, N: c.Pick(1, 12), Run: c16ManyKeys},
 			}
@@ -208,10 +209,22 @@ func c16Zoo(w *mon.W, idx int) {
 
 var c16Ms = []int{1, 2, 3, 8, 9, 17, 64, 200}
 
-func c16Count(w *mon.W, idx int) {
+// every m in 1..20 (a seeded single-pass count was wrong only for m in 10..16 on one range) and some larger ones
+var c16MsAll = []int{1, 2, 3, 4, 5, 6, 7, 8, 9, 10, 11, 12, 13, 14, 15, 16, 17, 18, 19, 20, 24, 33, 64, 200}
+
+func c16Count(w *mon.W, idx int) { c16CountWith(w, idx, false) }
+
+// c16CountMedium: 66..270 keys and ranges that end at, just before and just after multiples of 64 keys.
+func c16CountMedium(w *mon.W, idx int) { c16CountWith(w, idx, true) }
+
+func c16CountWith(w *mon.W, idx int, medium bool) {
 	r := w.Rng
 	var keys []string
-	for len(keys) < 2 {
+	for len(keys) < 2 || medium && len(keys) < 66 {
+		if medium {
+			keys = gen.SortedUnique(gen.KeyZoo(r, 90+r.Intn(200), r.Pick(2, 3, 9, 17)))
+			continue
+		}
 		keys = gen.SortedUnique(gen.KeyZoo(r, 2+r.Intn(r.Pick(7, 7, 39)), r.Pick(1, 2, 3, 9, 17)))
 	}
 	w.Op, w.Obj = "sigbits.New", keys
@@ -297,7 +310,31 @@ func c16Count(w *mon.W, idx int) {
 		w.Distinct(h)
 		return true
 	}
-	if all {
+	switch {
+	case medium:
+		w.Bucket("cp/keys>=66")
+		for e := 64; e <= n+1; e += 64 {
+			for _, ee := range []int{e - 1, e, e + 1} {
+				if ee > n || ee < 2 {
+					continue
+				}
+				for _, s := range []int{0, ee - 64, ee - 65, ee - 63, ee - 2, r.Intn(ee - 1)} {
+					if s < 0 || s > ee-2 {
+						continue
+					}
+					if !check(s, ee, c16MsAll[r.Intn(len(c16MsAll))]) {
+						return
+					}
+					if ee%64 == 0 && ee < n {
+						w.Bucket("cp/range-ends-at-multiple-of-64-keys")
+					}
+				}
+			}
+		}
+		if !check(0, n, 33) {
+			return
+		}
+	case all:
 		w.Bucket("cp/all-subranges")
 		for s := 0; s < n; s++ {
 			for e := s + 2; e <= n; e++ {
@@ -306,13 +343,19 @@ func c16Count(w *mon.W, idx int) {
 						return
 					}
 				}
+				// and four more widths out of 1..20, 24, 33
+				for k := 0; k < 4; k++ {
+					if !check(s, e, c16MsAll[r.Intn(len(c16MsAll)-2)]) {
+						return
+					}
+				}
 			}
 		}
-	} else {
+	default:
 		for k := 0; k < 12; k++ {
 			s := r.Intn(n - 1)
 			e := s + 2 + r.Intn(n-s-1)
-			if !check(s, e, c16Ms[r.Intn(len(c16Ms))]) {
+			if !check(s, e, c16MsAll[r.Intn(len(c16MsAll))]) {
 				return
 			}
 		}
